@@ -969,12 +969,15 @@ package yqlib
 //@   requires d != nil && validCtx(context) && expressionNode != nil && expressionNode.LHS != nil && expressionNode.RHS != nil && expressionNode.LHS.Operation != nil && expressionNode.RHS.Operation != nil
 //@   requires expressionNode.LHS.Operation.OperationType != nil && expressionNode.RHS.Operation.OperationType != nil
 //@   readonly-if context.DontAutoCreate
-//@   at AddChildren: assert @slice-elements {C01} len(newResults) == ite(sliceTo(secondNumber, len(lhsNode.Content)) > sliceFrom(firstNumber, len(lhsNode.Content)), sliceTo(secondNumber, len(lhsNode.Content)) - sliceFrom(firstNumber, len(lhsNode.Content)), 0) && forall(j, 0, len(newResults), newResults[j] == lhsNode.Content[sliceFrom(firstNumber, len(lhsNode.Content)) + j])
+//@   at getSliceNumber#2: assert @slice-start {C01} relativeFirstNumber == sliceFrom(firstNumber, len(lhsNode.Content)) // the bounds are expressions: the second may change the array
+//@   at AddChildren: assert @slice-end {C01} relativeSecondNumber == sliceTo(secondNumber, len(lhsNode.Content))
+//@   at AddChildren: assert @slice-length {C01} len(newResults) == ite(relativeSecondNumber > relativeFirstNumber, relativeSecondNumber - relativeFirstNumber, 0)
+//@   at AddChildren: assert @slice-elements {C01} forall(j, 0, len(newResults), newResults[j] == lhsNode.Content[relativeFirstNumber + j])
 //@   at AddChildren: assert @new-sequence {C01} sliceArrayNode != nil && sliceArrayNode.Kind == SequenceNode && len(sliceArrayNode.Content) == 0 && sliceArrayNode.Tag == lhsNode.Tag
 //@   ensures @one-result-per-input {C01} implies(result1 == nil, result0.MatchingNodes != nil && len(result0.MatchingNodes) == len(context.MatchingNodes))
 //@   loop 1:
 //@     invariant @position (el == nil && iter() == len(context.MatchingNodes)) || (el != nil && elList(el) == context.MatchingNodes && elIdx(el) == iter())
 //@     invariant @results fresh(results) && len(results) == iter() && nodeList(context.MatchingNodes)
 //@   loop 2:
-//@     invariant relativeFirstNumber <= i && len(newResults) == i - relativeFirstNumber && implies(relativeFirstNumber < relativeSecondNumber, i <= relativeSecondNumber) && freshSlice(newResults)
+//@     invariant relativeFirstNumber <= i && len(newResults) == i - relativeFirstNumber && implies(relativeFirstNumber < relativeSecondNumber, i <= relativeSecondNumber) && implies(relativeFirstNumber >= relativeSecondNumber, i == relativeFirstNumber) && freshSlice(newResults)
 //@     invariant forall(j, 0, len(newResults), newResults[j] == lhsNode.Content[relativeFirstNumber + j])
